@@ -22,8 +22,10 @@ import sys
 import random
 import shutil
 import hashlib
+import time
 import itertools
 import subprocess
+import unicodedata
 
 import core
 import trees
@@ -179,8 +181,9 @@ def impl_result(mf, path):
         return f"{type(e).__name__}: {e}"
 
 
-def cli_result(mf, path, home, subprocess_=False):
-    """`torrentfile recheck <metafile> <content>`: in process through cli.execute, or a fresh interpreter"""
+def cli_result(mf, path, home, subprocess_=False, hashseed=0):
+    """`torrentfile recheck <metafile> <content>`: in process through cli.execute, or a fresh interpreter (whose str hashes are
+       salted with `hashseed`: the order of sets of text differs from run to run as it does for a user)"""
     if not subprocess_:
         core.use_repo_in_process()
         from torrentfile.cli import execute
@@ -188,7 +191,7 @@ def cli_result(mf, path, home, subprocess_=False):
             return trees.quiet(execute, ["recheck", mf, path])
         except BaseException as e:  # noqa  (argparse exits)
             return f"{type(e).__name__}: {e}"
-    p = subprocess.run([core.PY, "-m", "torrentfile", "recheck", mf, path], env=core.impl_env({"HOME": home}),
+    p = subprocess.run([core.PY, "-m", "torrentfile", "recheck", mf, path], env=core.impl_env({"HOME": home, "PYTHONHASHSEED": str(hashseed)}),
                        capture_output=True, text=True, timeout=300)
     m = re.findall(r"<- ([0-9.eE+-]+)% ->", p.stdout)
     if p.returncode != 0 or not m:
@@ -1201,6 +1204,158 @@ def utf8_digest_block(rng, size):
     return None
 
 
+# ------------------------------------------------- recorded hash strings that are valid UTF-8 (pyben returns str)
+# Contents whose digests qualify are rare (SHA-1: ~1e-5, SHA-256: ~1e-8 per try), so they were searched once
+# (search_utf8_contents below; `python -c "from props import recheck_common as rc; rc.write_utf8_cache(600)"` from harness/)
+# and are kept as RECIPES in harness/data/utf8_digests.json; every run re-derives the contents and re-checks the digests.
+DATA_FILE = os.path.join(os.path.dirname(os.path.dirname(os.path.abspath(__file__))), "data", "utf8_digests.json")
+UTF8_CLASSES = ("sha1-block", "sha1-block32", "sha1-short", "sha256-short", "sha256-block", "sha256-pair")
+UTF8_TAGS = {"sha1-block": ".blk", "sha1-block32": ":b32", "sha1-short": "x", "sha256-short": "payload", "sha256-block": "=blk", "sha256-pair": "+two"}
+
+
+def utf8_text(dg):
+    """the text pyben makes of a recorded byte string (str) -- None when the bytes are not valid UTF-8 and stay bytes"""
+    try:
+        return dg.decode("utf-8")
+    except UnicodeDecodeError:
+        return None
+
+
+def char_widths(dg):
+    """the set of encoded widths (1..4 bytes) of the characters of a valid UTF-8 byte string"""
+    return {len(c.encode("utf-8")) for c in dg.decode("utf-8")}
+
+
+def recipe_bytes(recipe):
+    """[size, filler, tail] -> `size` ASCII bytes: the filler character repeated, then the tail (size == len(tail): the tail alone)"""
+    size, filler, tail = recipe
+    t = tail.encode("ascii")
+    return filler.encode("ascii") * (size - len(t)) + t
+
+
+def recipe_digest(klass, recipe):
+    """the recorded hash a recipe was searched for: SHA-1 of the content (a v1 piece), SHA-256 of the content (the merkle root of a
+       file of at most one block = the piece-layer hash of such a piece at one block per piece), or -- sha256-pair: the recipe is
+       two recipes of one block each -- the BEP 52 root of the two blocks"""
+    if klass.startswith("sha1"):
+        return hashlib.sha1(recipe_bytes(recipe)).digest()
+    if klass == "sha256-pair":
+        return oracle.pieces_root(recipe_bytes(recipe[0]) + recipe_bytes(recipe[1]))
+    return oracle.pieces_root(recipe_bytes(recipe))
+
+
+def _search_worker(args):
+    """one slice of the counter space of one class: the recipes whose digest is valid UTF-8 with a non-ASCII character"""
+    import time
+    klass, tag, start, stop, deadline = args
+    found = []
+    size = {"sha1-block": B, "sha1-block32": 2 * B, "sha256-block": B, "sha256-pair": B}.get(klass)
+    new = hashlib.sha1 if klass.startswith("sha1") else hashlib.sha256
+    filler = tag[0]
+    base = new(filler.encode() * (size - 32)) if size else None
+    first = hashlib.sha256(b"#" * B).digest() if klass == "sha256-pair" else None
+    for n in range(start, stop):
+        if n % 65536 == 0 and time.time() > deadline:
+            break
+        if size:
+            tail = (b"%s-%d\n" % (tag.encode(), n)).rjust(32, filler.encode())
+            h = base.copy()
+            h.update(tail)
+        else:
+            tail = b"%s-%d\n" % (tag.encode(), n)
+            h = new(tail)
+        dg = h.digest()
+        if first is not None:
+            dg = hashlib.sha256(first + dg).digest()
+        if dg.isascii():
+            continue
+        try:
+            dg.decode("utf-8")
+        except UnicodeDecodeError:
+            continue
+        one = [size or len(tail), filler, tail.decode("ascii").lstrip(filler) if size else tail.decode("ascii")]
+        found.append([[B, "#", ""], one] if first is not None else one)
+    return klass, found
+
+
+def search_utf8_contents(seconds, want=None, procs=None):
+    """search (in parallel, for at most `seconds`) contents of every class of UTF8_CLASSES whose recorded hash is valid UTF-8 with
+       a multi-byte character -> {class: [recipe]} (every recipe re-checked through recipe_digest)"""
+    import time
+    import multiprocessing
+    want = want or {"sha1-block": 12, "sha1-block32": 4, "sha1-short": 6, "sha256-short": 3, "sha256-block": 3, "sha256-pair": 1}
+    procs = procs or max(1, (os.cpu_count() or 2) - 2)
+    deadline = time.time() + seconds
+    out = {k: [] for k in want}
+    step = 1 << 22
+    nxt = {k: 0 for k in want}
+    with multiprocessing.Pool(procs) as pool:
+        while time.time() < deadline and any(len(out[k]) < want[k] for k in want):
+            jobs = []
+            for k in want:
+                if len(out[k]) >= want[k]:
+                    continue
+                per = procs if k.startswith("sha256") else 1
+                for _ in range(per):
+                    jobs.append((k, UTF8_TAGS[k], nxt[k], nxt[k] + step, deadline))
+                    nxt[k] += step
+            for k, found in pool.imap_unordered(_search_worker, jobs):
+                out[k] += found
+    for k in out:
+        out[k] = [r for r in out[k] if (utf8_text(recipe_digest(k, r)) or "").isascii() is False][:max(want[k], 1) * 2]
+    return out
+
+
+def write_utf8_cache(seconds=600, keep=8):
+    """search and keep, per class, at most `keep` recipes: first one per multi-byte width (2, 3, 4 bytes) that occurs, then the
+       others in the order found"""
+    found = search_utf8_contents(seconds, want={"sha1-block": 150, "sha1-block32": 80, "sha1-short": 80, "sha256-short": 3, "sha256-block": 3,
+                                                 "sha256-pair": 1})
+    for k, rs in found.items():
+        chosen = []
+        for w in (4, 3, 2):
+            for r in rs:
+                if w in char_widths(recipe_digest(k, r)) and r not in chosen:
+                    chosen.append(r)
+                    break
+        found[k] = (chosen + [r for r in rs if r not in chosen])[:keep]
+    import json
+    os.makedirs(os.path.dirname(DATA_FILE), exist_ok=True)
+    comment = ("recipes [size, filler, tail] of ASCII contents whose recorded hash (SHA-1 of a v1 piece; BEP 52 root / piece-layer hash) "
+               "is valid UTF-8 with a multi-byte character; found by recheck_common.search_utf8_contents")
+    with open(DATA_FILE, "w") as fd:           # one recipe per line
+        fd.write('{\n "comment": %s,\n "recipes": {\n' % json.dumps(comment))
+        ks = [k for k in UTF8_CLASSES if k in found]
+        for i, k in enumerate(ks):
+            fd.write('  %s: [\n' % json.dumps(k) + ",\n".join("   " + json.dumps(r) for r in found[k]))
+            fd.write('\n  ]%s\n' % ("," if i < len(ks) - 1 else ""))
+        fd.write(' }\n}\n')
+    return {k: len(v) for k, v in found.items()}
+
+
+def load_utf8_recipes(ctx=None, budget=6.0):
+    """{class: [recipe]} from the data file, every recipe re-checked (the digest is recomputed here; a recipe that does not qualify
+       is dropped and reported).  Without the file: a short search of the cheap SHA-1 classes only (noted)."""
+    import json
+    out = {k: [] for k in UTF8_CLASSES}
+    try:
+        with open(DATA_FILE) as fd:
+            raw = json.load(fd)["recipes"]
+    except Exception as e:  # noqa
+        if ctx is not None:
+            ctx.notes.append(f"aimed utf8 classes: {DATA_FILE} unreadable ({type(e).__name__}); searching the SHA-1 classes for {budget:.0f} s")
+        raw = search_utf8_contents(budget, want={"sha1-block": 4, "sha1-short": 2}, procs=4)
+    for k in UTF8_CLASSES:
+        for r in raw.get(k, []):
+            t = utf8_text(recipe_digest(k, r))
+            if t is None or t.isascii():
+                if ctx is not None:
+                    ctx.broken.append(f"harness/data/utf8_digests.json: recipe {r} of class {k} does not give a valid-UTF-8 non-ASCII digest")
+                continue
+            out[k].append(r)
+    return out
+
+
 REUSE_SALT = 0x5EED0C05
 REUSE_PLANS = {          # how one held Checker object is asked, state after state (cycled)
     "results()": ["results()"],
@@ -1372,11 +1527,12 @@ def e2e(ctx, mode):
                     if mode in ("C05", "C04") and (sn + i) % 3 == 0 or (mode == "C16" and i % 4 == 0 and sn < 2):
                         sub = cli_done < ncli_sub and kind in ("v1", "hybrid-asm", "ref-v2", "v2-class")
                         cli_done += 1 if sub else 0
-                        rc = cli_result(mf, sc.root, tmp, subprocess_=sub)
+                        hs = (case_seed >> 11) % 4294967295 + 1 if sub else 0      # (no draw from rng: replays re-derive the sets from it)
+                        rc = cli_result(mf, sc.root, tmp, subprocess_=sub, hashseed=hs)
                         ri = impl.get("result", impl.get("error"))
-                        cl.add("through the CLI" + (" (fresh interpreter)" if sub else " (cli.execute)"))
+                        cl.add("through the CLI" + (" (fresh interpreter, str hashes salted)" if sub else " (cli.execute)"))
                         if rc != ri and not (isinstance(ri, str) and isinstance(rc, str)):
-                            ctx.fail("cli-vs-library", inp, ri, rc)
+                            ctx.fail("cli-vs-library", dict(inp, cli_hashseed=hs) if sub else inp, ri, rc)
                     ctx.case(key=("e2e", mode, i, sn, kind), classes=sorted(cl), nontrivial=True,
                              sample=inp if (i, sn) == (1, 0) and kind == kinds[0] else None)
             if mode == "C05":
@@ -1395,10 +1551,16 @@ def e2e(ctx, mode):
             shutil.rmtree(base, ignore_errors=True)
         if mode in ("C05", "C16"):
             aimed_utf8(ctx, mode, tmp)
+        t0 = time.time()
+        aimed_utf8_strings(ctx, mode, tmp)
+        if os.environ.get("VERIF_TIMING"):
+            print(f"[timing] aimed_utf8_strings {time.time() - t0:.1f}s", file=sys.stderr)
         if mode in ("C04", "C16"):
             aimed_zero_tail(ctx, mode, tmp)
+        t0 = time.time()
         aimed_layouts(ctx, mode, tmp)
-        import time
+        if os.environ.get("VERIF_TIMING"):
+            print(f"[timing] aimed_layouts {time.time() - t0:.1f}s", file=sys.stderr)
         t0 = time.time()
         e2e_scale(ctx, mode, tmp)
         if os.environ.get("VERIF_TIMING"):
@@ -1410,10 +1572,44 @@ SAME_NAME_LABEL = "payload directory whose ONLY file is named like it (data/data
 SAME_NAME_NESTED_LABEL = "payload directory whose only entry is a directory named like it holding one file named like it (data/data/data)"
 
 
+def _nfd(s):
+    return unicodedata.normalize("NFD", s)
+
+
+# Payloads whose NAMES are text that is not stable under some transformation of text (they are created on disk exactly so, and every
+# encoder records the bytes as they are on disk): shape -> (payload name, [components of the files]; () = a single-file payload)
+NAME_SHAPES = {
+    # decomposed (NFD) file and directory names under an ASCII payload name
+    "nfd-file-and-directory": ("p", [(_nfd("caf\u00e9.bin"),), (_nfd("r\u00e9sum\u00e9"), "a.txt"), (_nfd("r\u00e9sum\u00e9"), _nfd("\u00e9")), ("plain.bin",)]),
+    # the payload itself has a decomposed name (directory; single file)
+    "nfd-payload-directory": (_nfd("r\u00e9sum\u00e9"), [("a.bin",), ("d", "b.bin"), (_nfd("\u00fc"),)]),
+    "nfd-single-file": (_nfd("caf\u00e9.bin"), [()]),
+    # canonically / compatibility-equivalent names side by side as DIFFERENT files: composed and decomposed é, the three spellings of
+    # A-ring (U+00C5, U+212B ANGSTROM SIGN, A + U+030A), a directory in both forms, ligature / circled / full-width characters
+    "equivalent-names-side-by-side": ("p", [("\u00e9",), ("e\u0301",), ("\u00c5",), ("\u212b",), ("A\u030a",), ("\u00f1", "x"),
+                                            ("n\u0303", "x"), ("\ufb01le.txt",), ("file.txt",), ("\u2460",),
+                                            ("\uff46\uff55\uff4c\uff4c",)]),
+    # characters that mean something to glob / fnmatch / shells / regular expressions
+    "glob-metacharacters": ("p[1]", [("a[1].bin",), ("st*r.txt",), ("wh?t",), ("{x,y}",), ("[!a]",), ("d[0-9]", "f*"), ("a1.bin",),
+                                     ("(z)+$",)]),
+}
+NAME_LABELS = {
+    "nfd-file-and-directory": "names: decomposed (NFD) file and directory names on disk",
+    "nfd-payload-directory": "names: the payload directory itself has a decomposed (NFD) name",
+    "nfd-single-file": "names: single-file payload with a decomposed (NFD) name",
+    "equivalent-names-side-by-side": "names: canonically / compatibility-equivalent names (NFC and NFD, U+00C5 / U+212B / A+U+030A, "
+                                     "ligature, circled, full-width) as different files side by side",
+    "glob-metacharacters": "names: glob / regular-expression metacharacters in file, directory and payload names",
+}
+
+
 def layout_scenario(base, content_seed, pl, sizes, single, kinds, shape=None):
     """a payload of the given sizes (files f00, f01, ...; or one single file; or -- shape -- the directory `data` whose only
-       file is data/data resp. data/data/data) whose content is a function of content_seed"""
+       file is data/data resp. data/data/data, or the named files of NAME_SHAPES) whose content is a function of content_seed"""
     rng = random.Random(content_seed)
+    if shape in NAME_SHAPES:
+        name, comps = NAME_SHAPES[shape]
+        return Scenario(base, rng, pl=pl, name=name, tree={c: rng.randbytes(s) for c, s in zip(comps, sizes)}, kinds=kinds)
     if shape:
         return Scenario(base, rng, pl=pl, name="data", tree={SAME_NAME_TREES[shape]: rng.randbytes(sizes[0])}, kinds=kinds)
     if single:
@@ -1436,6 +1632,18 @@ def aimed_layout_list(mode):
             if shape.endswith("nested") and n == 9:
                 continue
             out.append((label, pl, [n], False, [("trunc", 0, n - 5)] if n > 9 else [("flip", 0, 4)], V2_KINDS + ["v1", "ref-v1"], shape))
+    # names that are not stable under a transformation of TEXT (Unicode normalisation in any form, glob expansion): the files exist
+    # on disk exactly so; every kind of both views, root and parent (damage indices: files in raw-byte order of the components)
+    named = V2_KINDS + ["v1", "ref-v1", "ref-v1-attr"]
+    out.append((NAME_LABELS["nfd-file-and-directory"], 16384, [16384 + 5, 100, 2 * 16384, 7], False,
+                [("flip", 0, 3), ("trunc", 3, 16384)], named, "nfd-file-and-directory"))
+    out.append((NAME_LABELS["nfd-payload-directory"], 32768, [32768 + 1, 9, 32768], False, [("flip", 2, 32767)], named, "nfd-payload-directory"))
+    out.append((NAME_LABELS["nfd-single-file"], 16384, [2 * 16384 + 9], False, [("flip", 0, 2 * 16384 + 8)], V2_KINDS + ["v1", "ref-v1"],
+                "nfd-single-file"))
+    out.append((NAME_LABELS["equivalent-names-side-by-side"], 16384, [16384 + 1, 16384 + 2, 5, 6, 7, 16384, 2 * 16384 + 3, 30, 31, 1, 2], False,
+                [("flip", 1, 16384), ("rm", 6)], named, "equivalent-names-side-by-side"))       # flip in e+U+0301, U+00F1/x removed
+    out.append((NAME_LABELS["glob-metacharacters"], 16384, [16384 + 1, 20, 5, 6, 7, 16384 + 9, 16384 + 1, 3], False,
+                [("flip", 3, 0), ("trunc", 4, 16384)], named, "glob-metacharacters"))           # flip in a[1].bin (a1.bin intact)
     if mode != "C05":
         for pl in (32768, 16384):
             for sizes, desc in absent_empty_cases(pl):
@@ -1581,6 +1789,260 @@ def _aimed_utf8_one(ctx, mode, tmp, data, klass):
             ctx.case(key=("utf8", single, kind, len(data)), classes=[klass], nontrivial=True)
             if not (isinstance(r, float) and r == 100):
                 ctx.fail("utf8-digest", inp, 100.0, r, detail="pyben returns a valid-UTF-8 `pieces` string as str (D37)")
+
+
+# ---- payloads described by PARTS (a failing input carries its own content): a recipe [size, filler, tail], ["rand", seed, size],
+# ["cut", part, from, to]
+def part_bytes(p):
+    if p[0] == "rand":
+        return random.Random(p[1]).randbytes(p[2])
+    if p[0] == "cut":
+        return part_bytes(p[1])[p[2]:p[3]]
+    return recipe_bytes(p)
+
+
+def spec_tree(spec):
+    """[[path ("" = the single file), [part, ...]], ...] -> content tree"""
+    return {tuple(path.split("/")) if path else (): b"".join(part_bytes(p) for p in parts) for path, parts in spec}
+
+
+def split_spec(parts, cuts, names):
+    """the stream of `parts` cut at the absolute offsets `cuts` into len(cuts) + 1 files (names ascending in raw-byte order, so that
+       the v1 stream of the directory is the stream of the parts)"""
+    sizes = [len(part_bytes(p)) for p in parts]
+    bounds = [0] + list(cuts) + [sum(sizes)]
+    spec = []
+    for name, lo, hi in zip(names, bounds, bounds[1:]):
+        fparts, off = [], 0
+        for p, sz in zip(parts, sizes):
+            a, b = max(lo, off), min(hi, off + sz)
+            if a < b:
+                fparts.append(p if (a, b) == (off, off + sz) else ["cut", p, a - off, b - off])
+            off += sz
+        spec.append([name, fparts])
+    return spec
+
+
+def locate(files, off):
+    """(file index, offset in it) of stream offset `off`"""
+    for i, (_, d) in enumerate(files):
+        if off < len(d):
+            return i, off
+        off -= len(d)
+    raise ValueError(off)
+
+
+UTF8_SPLIT_NAMES = ["a", "b", "c/d", "e", "f"]
+
+
+def utf8_v1_plans(rec, tier):
+    """(piece length, parts of the stream = the pieces, layout: "single" | "dir-one" | list of cut offsets) of the v1 payloads whose
+       WHOLE `pieces` string is valid UTF-8 with at least one multi-byte character"""
+    b, b32, s = rec["sha1-block"], rec["sha1-block32"], rec["sha1-short"]
+    if not b or not s:
+        return []
+
+    def pick(lst, i):
+        return lst[i % len(lst)]
+    out = [
+        (B, [pick(b, 0), pick(s, 0)], "single"),                                          # two pieces, the last one short
+        (B, [pick(b, 1), pick(b, 2), pick(s, 1)], [10000, 10000, B + 7]),                 # three pieces over four files (one empty)
+        (B, [pick(b, 3), pick(b, 4), pick(b, 5)], "dir-one"),                             # three whole pieces, ends on the boundary
+        (B, [pick(b, 6), pick(b, 7)], "single"),                                          # two whole pieces
+    ]
+    if b32:
+        out.append((2 * B, [pick(b32, 0), pick(s, 2)], [5, 2 * B]))                       # 32 KiB pieces; the last piece is a file
+    if tier == "thorough":
+        for i in range(len(b)):
+            out.append((B, [b[i], pick(s, i + 3)], ["single", "dir-one", [B - 1], [1, B + 1]][i % 4]))
+        out.append((B, [pick(b, i) for i in (7, 5, 3, 1, 0)], [B, 3 * B + 1]))            # five whole pieces
+        out.append((B, [pick(b, i) for i in (2, 4, 6, 0)] + [pick(s, 4)], "single"))
+        out.append((B, [pick(s, 5)], "dir-one"))                                          # one short piece
+        out.append((4 * B, [pick(s, 6)], "single"))
+        for i in range(len(b32)):
+            out.append((2 * B, [b32[i], pick(b32, i + 1), pick(s, i)], ["single", [2 * B], [7, 2 * B + 9, 2 * B + 9]][i % 3]))
+    return out
+
+
+def utf8_v1_states(files, pl, single, thorough):
+    """(label, damage description) of the damaged states of a v1 payload: a flip in the last / first / a middle piece, the last byte
+       cut off, the whole last piece missing (truncated on the last piece boundary, later files removed)"""
+    total = sum(len(d) for _, d in files)
+    n = -(-total // pl)
+    out = [("flip in the last piece", [["flip", *locate(files, total - 1)]]),
+           ("flip in the first piece", [["flip", *locate(files, 0)]])]
+    if n >= 3:
+        out.append(("flip in a middle piece", [["flip", *locate(files, pl + 1)]]))
+    i, o = locate(files, total - 1)
+    out.append(("the last byte cut off", [["trunc", i, o]]))
+    if n >= 2:
+        boundary, desc, start = (n - 1) * pl, [], 0
+        for j, (_, d) in enumerate(files):
+            if d and start >= boundary and not single:
+                desc.append(["rm", j])
+            elif start < boundary < start + len(d):
+                desc.append(["trunc", j, boundary - start])
+            start += len(d)
+        out.append(("the whole last piece missing", desc))
+    if thorough and n >= 2:
+        out.append(("flips in the first and in the last piece", [["flip", *locate(files, 1)], ["flip", *locate(files, total - 2)]]
+                    if locate(files, 1)[0] != locate(files, total - 2)[0] else [["flip", *locate(files, (n - 1) * pl)]]))
+    return out
+
+
+def utf8_v2_plans(rec, tier):
+    """(class label, piece length, tree spec, path of the aimed file) of the v2 / hybrid payloads in which a RECORDED HASH is valid
+       UTF-8 with a multi-byte character: the pieces root of a file not longer than a piece (alone, single file, next to other files,
+       exactly one piece long, two blocks under one piece), the piece layers VALUE of a multi-piece file, the pieces root of a
+       multi-piece file (a piece layers KEY)"""
+    s, x, p = rec["sha256-short"], rec["sha256-block"], rec["sha256-pair"]
+    out = []
+    small = "recorded pieces root of a file not longer than a piece is valid UTF-8 with a multi-byte character"
+
+    def pick(lst, i):
+        return lst[i % len(lst)]
+    if s:
+        out += [(small + " (single-file payload)", B, [["", [pick(s, 0)]]], ""),
+                (small + " (the only file of a directory)", 2 * B, [["m.bin", [pick(s, 1)]]], "m.bin"),
+                (small + " (next to other files)", B, [["a", [["rand", 11, B + 9]]], ["m.bin", [pick(s, 2)]], ["z", [["rand", 12, 100]]]], "m.bin")]
+    if x:
+        out.append((small + " (file exactly one piece long)", B, [["k", [pick(x, 0)]], ["z", [["rand", 13, 5]]]], "k"))
+    if len(x) >= 2 and s:
+        out.append(("recorded piece layers VALUE of a multi-piece file is valid UTF-8 with a multi-byte character", B,
+                    [["big", [pick(x, 0), pick(x, 1), pick(s, 0)]], ["z", [["rand", 14, 100]]]], "big"))
+    if p:
+        out.append((small + " (two blocks under one piece of 32 KiB)", 2 * B, [["a", [["rand", 15, 7]]], ["two", list(pick(p, 0))]], "two"))
+        out.append(("recorded pieces root of a multi-piece file (a piece layers KEY) is valid UTF-8 with a multi-byte character", B,
+                     [["two", list(pick(p, 1))], ["zz", [["rand", 16, B + 1]]]], "two"))
+    if s and x and p:
+        out.append((small + " (three such files together, 64 KiB pieces)", 4 * B,
+                    [["m", [pick(s, 0)]], ["n", [pick(x, 1)]], ["o", list(pick(p, 0))], ["q", [["rand", 17, 4 * B + 3]]]], "n"))
+    if tier == "thorough":
+        for i, r in enumerate(s):
+            for pl in (B, 2 * B, 4 * B, 8 * B):
+                out.append((small + " (single-file payload)", pl, [["", [r]]], ""))
+                out.append((small + " (next to other files)", pl, [["0", [["rand", 20 + i, pl]]], ["sub/m", [r]], ["z", []]], "sub/m"))
+        for i, r in enumerate(x):
+            out.append((small + " (file exactly one piece long)", B, [["", [r]]], ""))
+            out.append((small + " (next to other files)", 2 * B, [["j", [["rand", 30 + i, 2 * B + 1]]], ["k", [r]]], "k"))
+        for i, r in enumerate(p):
+            out.append((small + " (two blocks under one piece of 32 KiB)", 2 * B, [["", list(r)]], ""))
+            out.append((small + " (two blocks under one piece of 64 KiB)", 4 * B, [["t/two", list(r)], ["u", [["rand", 40 + i, 9]]]], "t/two"))
+            out.append(("recorded pieces root of a multi-piece file (a piece layers KEY) is valid UTF-8 with a multi-byte character", B,
+                        [["", list(r)]], ""))
+        if len(x) >= 3:
+            out.append(("recorded piece layers VALUE of a multi-piece file is valid UTF-8 with a multi-byte character", B,
+                        [["", [x[2], x[0], x[1], x[2]]]], ""))
+    return out
+
+
+def utf8_v2_states(files, t, single, thorough):
+    """(label, damage description) around the aimed file (index t): flipped (last byte; first byte), one byte short, removed, and --
+       damage confined to ANOTHER file -- untouched while a neighbour is flipped"""
+    L = len(files[t][1])
+    out = [("the aimed file flipped in its last byte", [["flip", t, L - 1]]), ("the aimed file one byte short", [["trunc", t, L - 1]])]
+    if not single:
+        out.append(("the aimed file removed", [["rm", t]]))
+    others = [i for i, (_, d) in enumerate(files) if d and i != t]
+    if others:
+        out.append(("only a neighbour of the aimed file flipped", [["flip", others[-1], 0]]))
+    if thorough:
+        out.append(("the aimed file flipped in its first byte", [["flip", t, 0]]))
+        out.append(("the aimed file truncated to nothing", [["trunc", t, 0]]))
+        if L > B:
+            out.append(("the aimed file truncated on a block boundary", [["trunc", t, B]]))
+    return out
+
+
+def utf8_scenario(base, pl, spec, name, kinds):
+    return Scenario(base, random.Random(0), pl=pl, tree=spec_tree(spec), name=name, kinds=kinds)
+
+
+def aimed_utf8_strings(ctx, mode, tmp):
+    """
+    aimed class, every mode: RECORDED HASH STRINGS THAT ARE VALID UTF-8 WITH A MULTI-BYTE CHARACTER (pyben hands them over as str, whose
+    length and offsets are those of the text, not of the bytes).  v1: the whole `pieces` string of 1 .. 5 pieces (16 / 32 KiB pieces;
+    single file, one file in a directory, the stream cut into several files incl. an empty one); v2 / hybrid (every kind of the v2
+    view): the pieces root of a file not longer than a piece, a piece layers value, a piece layers key.  Intact (C05, C16; C05 also
+    through the parent directory) and damaged (C04, C16): v1 -- a flip in the last / first / a middle piece, the last byte cut off,
+    the whole last piece missing; v2 -- the aimed file flipped / short / removed, and only a neighbour flipped.  Contents from the
+    recipes of harness/data/utf8_digests.json (re-checked on every run); the judge is the reference verifier.
+    """
+    rec = load_utf8_recipes(ctx)
+    thorough = ctx.tier == "thorough"
+    plans = [("v1", None, pl, parts, layout) for pl, parts, layout in utf8_v1_plans(rec, ctx.tier)] + \
+            [("v2", label, pl, spec, target) for label, pl, spec, target in utf8_v2_plans(rec, ctx.tier)]
+    if not any(v == "v1" for v, *_ in plans) or not any(v == "v2" for v, *_ in plans):
+        ctx.notes.append("aimed utf8 classes: recipes missing for " + ", ".join(k for k in UTF8_CLASSES if not rec[k]))
+    for n, (view, label, pl, a, b) in enumerate(plans):
+        if view == "v1":
+            if a and b == "single":
+                spec, name = [["", a]], "p.bin"
+            elif b == "dir-one":
+                spec, name = [["a", a]], "p"
+            else:
+                spec, name = split_spec(a, b, UTF8_SPLIT_NAMES), "p"
+            kinds = ["v1", "ref-v1"] + (["ref-v1-attr"] if isinstance(b, list) else [])
+        else:
+            spec, name = a, ("p.bin" if b == "" else "p")
+            kinds = V2_KINDS
+        sc = utf8_scenario(os.path.join(tmp, f"us{n}"), pl, spec, name, kinds)
+        recipe = {"scope": "aimed-utf8", "tree_spec": spec}
+        for k, err in sc.errors.items():
+            ctx.fail("create-raised", sc.describe(k, None, recipe), "a metafile", err)
+        base_cl = set()
+        if view == "v1":
+            raw_pieces = b"".join(oracle.v1_pieces(b"".join(d for _, d in sc.files), pl))
+            text = utf8_text(raw_pieces)
+            if text is None or text.isascii():
+                ctx.broken.append(f"harness: aimed utf8 v1 plan {n}: the pieces string is not valid non-ASCII UTF-8")
+                continue
+            npieces = len(raw_pieces) // 20
+            base_cl = {"recorded v1 `pieces` string valid UTF-8 with a multi-byte character: %s" %
+                       ("1 piece" if npieces == 1 else "2 pieces" if npieces == 2 else "3 pieces" if npieces == 3 else ">= 4 pieces"),
+                       "recorded v1 `pieces` string valid UTF-8: %d KiB pieces" % (pl // 1024),
+                       "recorded v1 `pieces` string valid UTF-8: text shorter than the bytes by %s" %
+                       ("1" if len(raw_pieces) - len(text) == 1 else "2 or more"),
+                       "recorded v1 `pieces` string valid UTF-8: " + ("single file" if sc.single else "one file in a directory" if len(sc.files) == 1
+                                                                       else "stream cut into several files")} | \
+                {"recorded hash valid UTF-8: a character of %d bytes" % w for w in char_widths(raw_pieces) if w > 1}
+            states = utf8_v1_states(sc.files, pl, sc.single, thorough)
+            t = None
+        else:
+            t = [i for i, (c, _) in enumerate(sc.files) if "/".join(c) == (b or name)][0]
+            data = sc.files[t][1]
+            proot = oracle.pieces_root(data)
+            rec_hash = b"".join(oracle.piece_layer(data, pl)) if (len(data) > pl and "VALUE" in label) else proot
+            if (utf8_text(rec_hash) or "").isascii() is not False:
+                ctx.broken.append(f"harness: aimed utf8 v2 plan {n}: the aimed recorded hash is not valid non-ASCII UTF-8")
+                continue
+            base_cl = {"v2: " + label} | {"recorded hash valid UTF-8: a character of %d bytes" % w for w in char_widths(rec_hash) if w > 1}
+            states = utf8_v2_states(sc.files, t, sc.single, thorough)
+        order = ([("intact", [])] if mode != "C04" else []) + (states if mode != "C05" else [])
+        for sn, (slabel, desc) in enumerate(order):
+            sc.set_state(apply_desc(sc.files, desc))
+            for kind, (mf, meta) in sc.metas.items():
+                entries, origs = sc.entries(kind)
+                per_file = view_of(meta) == "v2"
+                guard = True
+                if per_file:
+                    g = v2_piece_guard(entries, origs, pl)
+                    guard = True if all(g) else g
+                inp = sc.describe(kind, [list(d) for d in desc], dict(recipe, state=slabel))
+                ref = reference(meta, sc.root)
+                judge(ctx, mode, "utf8-" + ("v2" if per_file else "v1"), inp, entries, origs, impl_run(mf, sc.root), ref, guard_ok=guard)
+                cl = {("v2: " if per_file else "") + c for c in classify(entries, origs, pl, per_file)} | base_cl | {"metafile " + kind}
+                if desc:
+                    cl.add("recorded hash valid UTF-8: " + slabel)
+                ctx.case(key=("aimed-utf8", n, kind, slabel), classes=sorted(cl), nontrivial=True,
+                         sample=inp if (n, sn) in ((1, 0), (6, 0)) and kind == kinds[1] else None)
+                if not desc and (mode == "C05" or thorough):
+                    inp_p = dict(inp, content_path="parent")
+                    judge(ctx, mode, "utf8-" + ("v2" if per_file else "v1") + "-via-parent", inp_p, entries, origs,
+                          impl_run(mf, sc.parent), ref, guard_ok=guard)
+                    ctx.case(key=("aimed-utf8", n, kind, slabel, "parent"), nontrivial=True,
+                             classes=sorted(cl | {"content path = parent directory"}))
+        shutil.rmtree(sc.base, ignore_errors=True)
 
 
 # ----------------------------------------------------------------------- end to end at SCALE
@@ -1961,6 +2423,17 @@ def replay(ctx, mode, data):
             seq_states = [apply_desc(sc.files, d) for d in (reuse or {}).get("earlier_states", [])] + [apply_desc(sc.files, inp["damage"])]
             sc.set_state(seq_states[-1])
             mf, meta = sc.metas[inp["metafile"]]
+            impl = impl_run(mf, sc.parent if inp.get("content_path") == "parent" else sc.root)
+            ref = reference(meta, sc.root)
+        elif inp["scope"] == "aimed-utf8":
+            print("aimed payload with a recorded hash string that is valid UTF-8: rebuilt from the recorded parts")
+            sc = utf8_scenario(os.path.join(tmp, "us"), inp["piece_length"], inp["tree_spec"], inp["name"], [inp["metafile"]])
+            sc.set_state(apply_desc(sc.files, inp["damage"]))
+            mf, meta = sc.metas[inp["metafile"]]
+            info = meta[b"info"]
+            print("payload:", sc.root, "files:", {"/".join(c): len(x) for c, x in sc.files}, "state:", inp.get("state"))
+            print("recorded:", {"pieces": info[b"pieces"]} if view_of(meta) == "v1" else
+                  {"pieces roots": [r for _, _, r in oracle.v2_layout(info)], "piece layers": meta.get(b"piece layers")})
             impl = impl_run(mf, sc.parent if inp.get("content_path") == "parent" else sc.root)
             ref = reference(meta, sc.root)
         elif inp["scope"] == "scale":
